@@ -86,8 +86,8 @@ struct R {   // deterministic expander
 	}
 };
 
-enum Shape { NATURAL, SATURATED, BRANCHY, STORE_L3, SPARSE, FP_HEAVY, RCP_NOOP, NSHAPES };
-inline const char* shapeName(int s) { static const char* n[] = {"natural", "saturated", "branchy", "store-L3", "sparse", "fp-heavy", "rcp-noop"}; return n[s]; }
+enum Shape { NATURAL, SATURATED, BRANCHY, STORE_L3, SPARSE, FP_HEAVY, RCP_NOOP, MAXLEN, NSHAPES };
+inline const char* shapeName(int s) { static const char* n[] = {"natural", "saturated", "branchy", "store-L3", "sparse", "fp-heavy", "rcp-noop", "max-code-size"}; return n[s]; }
 
 struct Override { int pos; Instr ins; };
 
@@ -115,6 +115,14 @@ inline void expand(uint8_t* out, int shape, uint64_t seed, int satType, const st
 	case STORE_L3: for (int i = 0; i < N; ++i) { Instr x = r.chance(50) ? r.instr(ISTORE) : r.instr(); if (typeOf(x.opcode) == ISTORE && r.chance(70)) x.mod |= 0xe0; put(p + 8 * i, x); } break;
 	case SPARSE: { for (int i = 0; i < N; ++i) put(p + 8 * i, nopEquivalent()); int k = 1 + r.below(24); for (int j = 0; j < k; ++j) put(p + 8 * r.below(N), r.instr()); break; }
 	case FP_HEAVY: for (int i = 0; i < N; ++i) { static const int f[] = {FSWAP_R, FADD_R, FADD_M, FSUB_R, FSUB_M, FSCAL_R, FMUL_R, FDIV_M, FSQRT_R, CFROUND}; put(p + 8 * i, r.chance(80) ? r.instr(f[r.below(10)]) : r.instr()); } break;
+	case MAXLEN: {
+		// worst-case code size: (almost) every slot the longest x86 encoding - FDIV_M with src = r4 (r12 needs a SIB byte: 32 bytes); the few
+		// other slots 31-byte encodings (FDIV_M with another register, CFROUND under v2). Exercises the code-buffer budget of every back-end.
+		int others = r.below(8);   // 0..7 slots that are not the 32-byte form
+		for (int i = 0; i < N; ++i) { Instr x = r.instr(FDIV_M); x.src = (uint8_t)((x.src & 0xf8) | 4); put(p + 8 * i, x); }
+		for (int j = 0; j < others; ++j) { Instr x = r.chance(50) ? r.instr(CFROUND) : r.instr(FDIV_M); if (typeOf(x.opcode) == FDIV_M && (x.src & 7) == 4) x.src ^= 1; put(p + 8 * r.below(N), x); }
+		break;
+	}
 	case RCP_NOOP: {
 		// natural program with blocks: writer of d; modifier of another register; IMUL_RCP d with no-op divisor; CBRANCH d (C18 no-op rule)
 		for (int i = 0; i < N; ++i) put(p + 8 * i, r.instr());
